@@ -145,6 +145,8 @@ def isolate(code, S, V, env, prop):
             continue
         except Exception:  # noqa   harness could not feed these operands to the real interpreter (e.g. applied lambda)
             continue
+        if any(f[1] == 'requires.input_accepted' for f in fs):
+            continue                      # these operands cannot be handed to the real interpreter as literals
         fs = [f for f in fs if f[0] == prop]
         if fs:
             return dict(code=sub, S=Ss, V=Vs, finding=fs[0], ins=ins)
